@@ -276,6 +276,8 @@ var liar = &core.Check{Name: "c07/liar", Quick: 15000, Thorough: 1500000, Hang: 
 	lie := c.Choose("lie", 22)
 	if c.Intn("shape", 40) == 0 {
 		lie = 22 + c.Intn("shape.k", 2)
+	} else if c.Intn("pair", 25) == 0 {
+		lie = 24
 	}
 	c.Note("lie", lie)
 	cellIdx := func() int { return c.Choose("cell", len(r.CellList)) }
@@ -378,6 +380,14 @@ var liar = &core.Check{Name: "c07/liar", Quick: 15000, Thorough: 1500000, Hang: 
 		}
 	case 21: // two lies at once: huge count and huge width
 		r.Cells, r.OffBytes = drawHostile(c, "cells"), byte(c.OneOf("off", 8, 9, 255))
+	case 24: // a pair of lies that agree with each other: huge cell count and a total size of twice that
+		cells := uint64(c.OneOf("cells24", 0xffff, 0xffffff, 0x7fffffff, 0xffffffff))
+		width := 4
+		if cells <= 0xffffff {
+			width = 3
+		}
+		r = &ref.RawBoc{Magic: []byte{0xb5, 0xee, 0x9c, 0x72}, SizeByte: byte(width), OffBytes: byte(c.OneOf("off24", 5, 8)), Cells: cells, Roots: 1,
+			RootList: []uint64{0}, TotSize: 2*cells + uint64(c.Intn("slack24", 4)), CellList: []ref.RawCell{{D1: 0, D2: 0}}}
 	case 22, 23: // not a lie but a hostile shape: a long chain (deeper than the 1024 limit) or a wide sharing ladder
 		n := c.OneOf("chain", 300, 1023, 1024, 1025, 1026, 2500, 4000)
 		ladder := lie == 23
